@@ -2,7 +2,7 @@
    tangents are unit vectors orthogonal to the normal.  Statements only; proofs are in
    Proofs/Normals.v (any commutative ring) and Proofs/NormalsR.v (real numbers). *)
 From Coq Require Import List ZArith Ring.
-From PC Require Import Model.Normals Proofs.Normals Proofs.NormalsR.
+From PC Require Import Model.Normals Gen.NormalsAcc Proofs.Normals Proofs.NormalsR.
 Import ListNotations.
 
 Section AnyRing.
